@@ -174,12 +174,14 @@ template<typename T> static std::string do_grantg(int mode, const std::string& s
   bool same = p != 0 && where == "inside" && std::memcmp(reinterpret_cast<void*>(p), s, (size_t)num * sizeof(T)) == 0;
   return std::string("ok ") + where + " copied=" + (copied ? "1" : "0") + " bytes=" + (same ? "same" : "DIFFERENT");
 }
-template<typename T> static std::string do_denyg(int mode, i128 num)
+template<typename T> static std::string do_denyg(int mode, i128 num, long off = -1)
 {
   bool copied = false;
   auto* im = g_sbG.get_sandbox_impl(); im->brk = 0x8000;
-  auto p = g_sbG.malloc_in_sandbox<T>((uint32_t)num);
-  std::memset(p.UNSAFE_unverified(), 0x5c, (size_t)num * sizeof(T));
+  tainted<T*, SbxAg> p = nullptr;
+  if (off < 0) p = g_sbG.malloc_in_sandbox<T>((uint32_t)num);
+  else p.assign_raw_pointer(g_sbG, reinterpret_cast<T*>(im->Base + (uintptr_t)off));     // a buffer anywhere in the region (also one that runs past its end)
+  if (off < 0 || (uint64_t)off + (uint64_t)num * sizeof(T) <= BLK) std::memset(p.UNSAFE_unverified(), 0x5c, (size_t)num * sizeof(T));
   vsbx::g_grant_mode = mode;
   struct Reset { ~Reset() { vsbx::g_grant_mode = 0; } } reset;
   T* r = rlbox::copy_memory_or_deny_access(g_sbG, p, (size_t)(uint64_t)num, false, copied);
@@ -235,6 +237,13 @@ int main()
         if (t[2] == "char") return do_grantg<char>(mode, t[3], parse_dec(t[4]));
         if (t[2] == "short") return do_grantg<short>(mode, t[3], parse_dec(t[4]));
         if (t[2] == "double") return do_grantg<double>(mode, t[3], parse_dec(t[4]));
+        return "badop";
+      }
+      if (op == "denygo" && t.size() == 5) {
+        int mode = atoi(t[1].c_str()); long off = (long)parse_dec(t[3]);
+        if (t[2] == "char") return do_denyg<char>(mode, parse_dec(t[4]), off);
+        if (t[2] == "short") return do_denyg<short>(mode, parse_dec(t[4]), off);
+        if (t[2] == "double") return do_denyg<double>(mode, parse_dec(t[4]), off);
         return "badop";
       }
       if (op == "denyg" && t.size() == 4) {
